@@ -24,11 +24,11 @@ type WalDP struct {
 }
 
 type WalBuildArgs struct {
-	Kind   string      `json:"kind"` // dp | mname | mmeta
-	Frames [][]WalDP   `json:"frames,omitempty"`
-	Names  [][]string  `json:"names,omitempty"`
-	Metas  [][]string  `json:"metas,omitempty"` // each entry = MSegmentDir name
-	Write  bool        `json:"write,omitempty"` // use Wal.Write (truncate + rewrite) instead of Append
+	Kind   string     `json:"kind"` // dp | mname | mmeta
+	Frames [][]WalDP  `json:"frames,omitempty"`
+	Names  [][]string `json:"names,omitempty"`
+	Metas  [][]string `json:"metas,omitempty"` // each entry = MSegmentDir name
+	Write  bool       `json:"write,omitempty"` // use Wal.Write (truncate + rewrite) instead of Append
 }
 
 func walTmp(name string) string { return filepath.Join(DataDir, "waltmp-"+name) }
